@@ -128,7 +128,7 @@ def spec_features(spec):
     if not idl:
         f.add("lia")
     # non-linear integer arithmetic: z3's optimisers give no optimality guarantee there
-    if any((w.get("cost") or {}).get("kind") in ("linear", "poly", "general") for w in spec.get("workers", [])):
+    if any((w.get("cost") or {}).get("kind") in ("linear", "poly") for w in spec.get("workers", [])):
         f.add("nonlinear")
     if spec["problem"].get("horizon") is None and any(i["kind"] == "Utilization" for i in spec.get("indicators", [])):
         f.add("nonlinear")
